@@ -129,6 +129,7 @@ func checkC02(c *Ctx, r *Report) {
 	r.floor("R2.3", 5)
 	r.floor("R2.4", 20)
 	r.floor("R2.5", 2)
+	r.floor("R2.6", 18)
 	crc := c.fnMust("packet", "CRC16")
 	for _, pi := range packetParsers(c, "packet", false) {
 		c02RoundTrip(c, r, pi, crc, false)
@@ -138,15 +139,7 @@ func checkC02(c *Ctx, r *Report) {
 	}
 	// the recognisers the client constructors actually install (CRC-aware ones may also answer
 	// nil on a CRC mismatch)
-	{
-		done := map[*ssa.Function]bool{c.fnMust("packet", "AsTCPErrorPacket"): true, c.fnMust("packet", "AsRTUErrorPacket"): true}
-		for _, in := range installedFns(c) {
-			if in.asErr != nil && in.parse != nil && !done[in.asErr] {
-				done[in.asErr] = true
-				c02RecogniserCRC(c, r, "R2.3", in.asErr, crcIf(crc, in.rtu), !in.rtu, false)
-			}
-		}
-	}
+	installedRecognisers(c, r, "R2.3", crc, map[string]bool{c.fnMust("packet", "AsTCPErrorPacket").String() + "/false": true, c.fnMust("packet", "AsRTUErrorPacket").String() + "/true": true})
 	for _, name := range []string{"ParseTCPResponse", "ParseRTUResponse"} {
 		c02Dispatcher(c, r, c.fnMust("packet", name), name == "ParseTCPResponse", false)
 	}
@@ -204,6 +197,40 @@ func c02RoundTrip(c *Ctx, r *Report, pi parserInfo, crc *ssa.Function, control b
 	if n != 1 {
 		rep("R2.1", false, fmt.Sprintf("parser has %d feasible success returns for a well-formed frame (want 1)", n), "", "success-sites")
 		return fired
+	}
+	// R2.6 acceptance: no rejecting return is reachable for a frame the specification allows
+	if sp := specFor(pi.fc); sp != nil && pi.fc != 17 {
+		hdr := int64(2) // unit id + function code
+		trailer := int64(2)
+		if pi.tcp {
+			hdr, trailer = 8, 0
+		}
+		var wf Conj
+		variable := len(sp.resp) >= 1 && (sp.resp[0].kind == sByteCount || sp.resp[0].kind == sCountByte)
+		if variable {
+			bc := pf.frameBytes(data, affConst(hdr), 1, true)
+			wf = append(wf, atomEQ(data.ln, bc.addc(hdr+1+trailer)), atomGE(bc, affConst(1)), atomLE(bc, affConst(250)))
+			if pi.fc == 3 || pi.fc == 4 || pi.fc == 23 {
+				wf = append(wf, atomEQ(pf.modAff(bc, 2), affConst(0)), atomGE(bc, affConst(2)))
+			}
+		}
+		if !control {
+			r.instance("R2.6", 1)
+		}
+		bad := ""
+		for i := range pf.returns {
+			rs := &pf.returns[i]
+			nf := pf.nilness(rs.vals[1])
+			if nf.kind == fConst && nf.b {
+				continue
+			}
+			for _, cj := range dnfAnd(rs.state, nf.dnf(true)) {
+				if !infeasible(cj.with(wf...)) {
+					bad = fmt.Sprintf("rejecting return at %s reachable with %s", c.pos(rs.instr.Pos()), truncate(cj.String(), 200))
+				}
+			}
+		}
+		rep("R2.6", bad == "", "every frame of the specified shape (all legal byte counts, exact length) is accepted: no rejecting return is reachable", bad, "rejects-wellformed")
 	}
 	p, isP := site.vals[0].(APtr)
 	if !isP || p.obj == nil {
